@@ -30,6 +30,8 @@ type c02Case struct {
 	Record string `json:"record_xml"`
 }
 
+// records: XML documents (target /r), JSON documents (prefix "json:", target /r) and one plain
+// (flat-file style, no format data) tree (prefix "plain:").
 var c02Records = []string{
 	`<r><a><a>x</a>y</a><c>1</c></r>`,
 	`<r><a>1</a><a>2</a><c> p </c></r>`,
@@ -37,6 +39,10 @@ var c02Records = []string{
 	`<r><a> 1.5 </a><c>true</c><d><a>7</a></d></r>`,
 	`<r/>`,
 	`<r><a><a>1</a><a>2</a></a><c>a</c></r>`,
+	`json:{"r":{"a":{"a":"x","k":1},"c":1,"d":{"a":[7,8]}}}`,
+	`json:{"r":{"a":[1,2.5,{"a":" z "}],"c":" p ","k":null,"b":[]}}`,
+	`json:{"r":{"a":"1.5","c":true}}`,
+	`plain:a=1.5;c=7;d/a=x`,
 }
 
 var c02Externals = map[string]string{"e1": " v ", "e2": "3"}
@@ -126,6 +132,41 @@ func c02Schema(decls gd, finalXPath bool) []byte {
 }
 
 func c02LoadRecord(doc string) *idr.Node {
+	if strings.HasPrefix(doc, "json:") {
+		sr, err := idr.NewJSONStreamReader(strings.NewReader(doc[5:]), "/r")
+		if err != nil {
+			panic(err)
+		}
+		n, err := sr.Read()
+		if err != nil {
+			panic(err)
+		}
+		return n
+	}
+	if strings.HasPrefix(doc, "plain:") {
+		root := idr.CreateNode(idr.DocumentNode, "")
+		r := idr.CreateNode(idr.ElementNode, "r")
+		idr.AddChild(root, r)
+		for _, kv := range strings.Split(doc[6:], ";") {
+			parts := strings.SplitN(kv, "=", 2)
+			cur := r
+			for _, name := range strings.Split(parts[0], "/") {
+				var next *idr.Node
+				for c := cur.FirstChild; c != nil; c = c.NextSibling {
+					if c.Type == idr.ElementNode && c.Data == name {
+						next = c
+					}
+				}
+				if next == nil {
+					next = idr.CreateNode(idr.ElementNode, name)
+					idr.AddChild(cur, next)
+				}
+				cur = next
+			}
+			idr.AddChild(cur, idr.CreateNode(idr.TextNode, parts[1]))
+		}
+		return r
+	}
 	sr, err := idr.NewXMLStreamReader(strings.NewReader(doc), "/r")
 	if err != nil {
 		panic(err)
@@ -597,7 +638,7 @@ func init() {
 	core.Register(&core.Prop{
 		ID:    "C02",
 		Level: "exploration",
-		Rule:  "generated transform_declarations: (A) every leaf (const/external/field with xpath or xpath_dynamic) x all 20 type/no_trim/keep_empty_or_null combinations in every context (object child, array element, FINAL_OUTPUT itself, under a cursor, concat argument, xpath_dynamic, typed and variadic function parameters with absent values), function errors with/without ignore_error, wide arrays/objects; (B) every composition of object/array/custom_func over reduced leaves to depth 3 with all cursor xpaths and key names {a,b,a.b,%}; (C) the same declaration text at two positions (under array vs object, parent vs child cursor), one template at several sites/cursors, nested templates — each x 6 XML records; implementation run with the per-record result cache on and off, compared with the reference interpreter; distinct by (declarations, record), outcome class = (family, emitted JSON)",
+		Rule:  "generated transform_declarations: (A) every leaf (const/external/field with xpath or xpath_dynamic) x all 20 type/no_trim/keep_empty_or_null combinations in every context (object child, array element, FINAL_OUTPUT itself, under a cursor, concat argument, xpath_dynamic, typed and variadic function parameters with absent values), function errors with/without ignore_error, wide arrays/objects; (B) every composition of object/array/custom_func over reduced leaves to depth 3 with all cursor xpaths and key names {a,b,a.b,%}; (C) the same declaration text at two positions (under array vs object, parent vs child cursor), one template at several sites/cursors, nested templates — each x 10 records (6 XML, 3 JSON, 1 plain flat-file style tree); implementation run with the per-record result cache on and off, compared with the reference interpreter; distinct by (declarations, record), outcome class = (family, emitted JSON)",
 		Assumptions: []string{
 			"the reference interpreter ref/declinterp.go (about 300 lines) states the documented semantics; it shares the node tree, the xpath engine and idr.J2NodeToInterface (copy) with the implementation",
 			"the bulk drives transform.ValidateTransformDeclarations + ParseNode, exactly what the ingester calls; a covering subset goes through omniparser.NewSchema/Transform.Read and must give the same bytes",
@@ -654,7 +695,7 @@ func init() {
 						if c.WantSample() && strings.HasPrefix(label, "C:") && outcome != "null" && outcome != "FAIL" {
 							c.Sample(map[string]interface{}{"family": label, "transform_declarations": decls, "record": cs.Record, "emitted": outcome})
 						}
-						if schema != nil {
+						if schema != nil && strings.HasPrefix(c02Records[ri], "<") {
 							r := hx.Run(schema, strings.NewReader(c02Records[ri]), hx.Opts{Externals: c02Externals, NoChecksum: true})
 							got := "?"
 							if len(r.Steps) > 0 {
